@@ -144,7 +144,7 @@ inductive Skel where
   | comb (f a : Skel)
   | abs (x : String) (T : Option Ty) (b : Skel)
   | bound (i : Nat)
-  deriving Repr, Inhabited
+  deriving Repr, Inhabited, DecidableEq
 
 /-- `t.subst_type_inplace(tyinst)` -/
 def Skel.substI (τ : List Ty) : Skel → Skel
